@@ -181,4 +181,101 @@ Qed.
 Corollary comps_spec_comps l : comps is_sep norm (AtBeg, l) = spec_comps is_sep norm l.
 Proof. rewrite spec_comps_cspec. apply comps_spec. exact dot_not_sep. Qed.
 
+
+(* ---- sizes, fuel, back = reverse of front ---- *)
+Lemma cs_length_le : forall n s, INV s = true -> (length (snd s) <= n)%nat -> (length (cs s) <= length (snd s))%nat.
+Proof.
+  induction n as [|n IH]; intros s H Hn.
+  - pose proof (next_front_spec s H) as F. destruct (next_front is_sep norm s) as [[c s']|].
+    + destruct F as (_ & _ & Hl). lia.
+    + rewrite F. cbn. lia.
+  - pose proof (next_front_spec s H) as F. destruct (next_front is_sep norm s) as [[c s']|].
+    + destruct F as (E & HI & Hl). rewrite E. cbn [length].
+      assert (length (cs s') <= length (snd s'))%nat by (apply IH; [exact HI | lia]). lia.
+    + rewrite F. cbn. lia.
+Qed.
+Lemma cs_length s : INV s = true -> (length (cs s) <= length (snd s))%nat.
+Proof. intros H. apply (cs_length_le (length (snd s)) s H). lia. Qed.
+
+(* collecting from the back with enough fuel yields the components in reverse *)
+Fixpoint back_collect (fuel : nat) (s : pstate * list byte) : list comp :=
+  match fuel with
+  | O => []
+  | S f => match next_back is_sep norm s with Some (c, s') => c :: back_collect f s' | None => [] end
+  end.
+Lemma back_collect_spec : forall fuel s, INV s = true -> (length (cs s) < fuel)%nat -> back_collect fuel s = rev (cs s).
+Proof.
+  induction fuel as [|f IH]; intros s H Hf; [lia|].
+  cbn [back_collect]. pose proof (next_back_spec s H) as B.
+  destruct (next_back is_sep norm s) as [[c s']|].
+  - destruct B as (E & HI & _). rewrite E. rewrite rev_app_distr. cbn [rev app]. f_equal.
+    apply IH; [exact HI|]. rewrite E in Hf. rewrite app_length in Hf. cbn in Hf. lia.
+  - rewrite B. reflexivity.
+Qed.
+Fixpoint front_collect (fuel : nat) (s : pstate * list byte) : list comp :=
+  match fuel with
+  | O => []
+  | S f => match next_front is_sep norm s with Some (c, s') => c :: front_collect f s' | None => [] end
+  end.
+Lemma front_collect_spec : forall fuel s, INV s = true -> (length (cs s) < fuel)%nat -> front_collect fuel s = cs s.
+Proof.
+  induction fuel as [|f IH]; intros s H Hf; [lia|].
+  cbn [front_collect]. pose proof (next_front_spec s H) as F.
+  destruct (next_front is_sep norm s) as [[c s']|].
+  - destruct F as (E & HI & _). rewrite E. f_equal. apply IH; [exact HI|]. rewrite E in Hf. cbn in Hf. lia.
+  - rewrite F. reflexivity.
+Qed.
+(* any fuel beyond the length of the input gives the same answer: the loop stopped by itself *)
+Corollary front_collect_stable s k : INV s = true ->
+  front_collect (S (length (snd s)) + k) s = front_collect (S (length (snd s))) s.
+Proof.
+  intros H. pose proof (cs_length s H). rewrite !front_collect_spec; try assumption; try reflexivity; lia.
+Qed.
+Corollary back_collect_stable s k : INV s = true ->
+  back_collect (S (length (snd s)) + k) s = back_collect (S (length (snd s))) s.
+Proof.
+  intros H. pose proof (cs_length s H). rewrite !back_collect_spec; try assumption; try reflexivity; lia.
+Qed.
+Corollary back_is_rev_front s : INV s = true ->
+  back_collect (S (length (snd s))) s = rev (front_collect (S (length (snd s))) s).
+Proof.
+  intros H. pose proof (cs_length s H). rewrite back_collect_spec, front_collect_spec; try assumption; try reflexivity; lia.
+Qed.
+
+(* exhausted iterators stay exhausted and do not move *)
+Lemma exhausted_stays s : INV s = true -> cs s = [] ->
+  forall sched, sched_run (next_front is_sep norm) (next_back is_sep norm) s sched = map (fun _ => (None, s)) sched.
+Proof.
+  intros H E sched. induction sched as [|d r IH]; [reflexivity|].
+  cbn [sched_run map]. destruct d.
+  - rewrite (proj2 (back_none_iff s H) E). rewrite IH. reflexivity.
+  - rewrite (proj2 (front_none_iff s H) E). rewrite IH. reflexivity.
+Qed.
+
+(* ---- conservation at the level of the declarative split ---- *)
+(* the input is its segments interleaved with single separator bytes *)
+Fixpoint weave (gs : list (list byte)) (seps : list byte) : list byte :=
+  match gs, seps with
+  | g :: gs', s :: seps' => g ++ s :: weave gs' seps'
+  | g :: _, [] => g
+  | [], _ => []
+  end.
+Lemma split_weave (l : list byte) : exists seps : list byte,
+  (Forall (fun b => is_sep b = true) seps) /\
+  (S (length seps) = length (split is_sep l))%nat /\ (l = weave (split is_sep l) seps) /\
+  (Forall (fun g => nosep is_sep g = true) (split is_sep l)).
+Proof.
+  induction l as [|b r IH].
+  - exists []. cbn. repeat split; constructor; [reflexivity | constructor].
+  - destruct IH as (seps & Hs & Hl & Hw & Hn).
+    destruct (is_sep b) eqn:Hb.
+    + exists (b :: seps). rewrite (split_cons_sep is_sep b r Hb). cbn [length weave app].
+      repeat split; [constructor; assumption | lia | f_equal; assumption | constructor; [reflexivity | assumption]].
+    + rewrite (split_cons_nsep is_sep b r Hb).
+      destruct (split is_sep r) as [|g gs] eqn:Eg; [exfalso; eapply split_nonnil; eauto|].
+      exists seps. cbn [length] in *. repeat split; [assumption | lia | |].
+      * destruct seps as [|s seps']; cbn [weave] in *; rewrite Hw; reflexivity.
+      * inversion Hn; subst. constructor; [|assumption]. cbn. rewrite Hb. cbn. assumption.
+Qed.
+
 End S.
